@@ -21,7 +21,7 @@ LEVEL_TEXT = ("Exhaustive over the stated finite domain: all 51 597 (operator, l
               "at the typing interface (post-condition contract on the real function) and all 2 548 spellable triples end to end "
               "(accept/reject at the front-end gate, result type, inserted operand conversions).")
 LEVEL_NOTE = ("Trusted: the spec table nslverif/ref/typing.py transcribed from the property statement. Matrix-vs-matrix comparison is "
-              "undefined by the statement and skipped; operand conversions of comparisons are not judged; a one-column product may "
+              "undefined by the statement and skipped; the operands of a comparison must be brought to their common type; a one-column product may "
               "be a vector or an n x 1 matrix. Rejected = the call raised (interface) / the front end did not pass the gate (end to end).")
 RULE = ("every (op, L, R) triple is one case (distinct by construction); non-trivial = the spec is not 'undefined'. "
         "Interface: 13 x 63 x 63; end to end: 13 x 14 x 14 programs `export function f(L a, R b) -> T { return a OP b; }`.")
